@@ -5,7 +5,7 @@
  *
  * usage: drv_alloc <cases.txt> <out.ndjson> [from-line]
  *   each line:  <scenario> <k> [k2]  k = 0: no failure (counts the allocations of the scenario); k2: a second failure
- *   scenarios:  setup get block1 block2 observe uri async oscore rawblock1 (a scripted peer uploads three Block1 blocks without Size1)
+ *   scenarios:  setup get block1 block2 observe uri async oscore oscore2 (server configuration with three recipient ids) rawblock1 (a scripted peer uploads three Block1 blocks without Size1)
  */
 #include "simnet.h"
 #include <string.h>
@@ -135,13 +135,14 @@ static void h_nack(coap_session_t *s, const coap_pdu_t *sent, const coap_nack_re
   got_nack++;
 }
 
+static int multi_rcp;                 /* the server's configuration names three recipients */
 static coap_oscore_conf_t *mkconf(int client) {
   char txt[512];
   coap_str_const_t c;
   snprintf(txt, sizeof(txt),
            "master_secret,hex,\"0102030405060708090a0b0c0d0e0f10\"\nmaster_salt,hex,\"9e7ca92223786340\"\n"
-           "sender_id,hex,\"%s\"\nrecipient_id,hex,\"%s\"\nreplay_window,integer,32\nrfc8613_b_1_2,bool,false\n",
-           client ? "" : "01", client ? "01" : "");
+           "sender_id,hex,\"%s\"\nrecipient_id,hex,\"%s\"\n%sreplay_window,integer,32\nrfc8613_b_1_2,bool,false\n",
+           client ? "" : "01", client ? "01" : "", (!client && multi_rcp) ? "recipient_id,hex,\"0a\"\nrecipient_id,hex,\"0b0c\"\n" : "");
   c.s = (const uint8_t *)txt;
   c.length = strlen(txt);
   return coap_new_oscore_conf(c, NULL, NULL, 0);
@@ -289,9 +290,10 @@ static void raw_block1(void) {
 
 static void scenario(const char *sc) {
   if (!strcmp(sc, "uri")) { sc_uri(); return; }
-  if (!env_up(!strcmp(sc, "oscore"))) { fputs("{\"e\":\"Ret\",\"op\":\"env_up\",\"ok\":0}\n", sim_trace); return; }
+  multi_rcp = !strcmp(sc, "oscore2");
+  if (!env_up(!strcmp(sc, "oscore") || multi_rcp)) { fputs("{\"e\":\"Ret\",\"op\":\"env_up\",\"ok\":0}\n", sim_trace); return; }
   if (!strcmp(sc, "setup")) return;
-  if (!strcmp(sc, "get") || !strcmp(sc, "oscore")) {
+  if (!strcmp(sc, "get") || !strcmp(sc, "oscore") || !strcmp(sc, "oscore2")) {
     exchange(1, COAP_REQUEST_CODE_GET, "r", 0, -1, 69, 100000);
     exchange(0, COAP_REQUEST_CODE_GET, "r", 0, -1, 69, 100000);
     exchange(1, COAP_REQUEST_CODE_PUT, "r", 10, -1, 68, 100000);
